@@ -2479,4 +2479,43 @@ example :
     (evalChunk (asyncChunk asciiPrintable noExtend [] res.2.out) JsState.empty).map (·.errors)
       = some [(3, 20, [98, 111, 111, 109]), (3, 21, [98, 111, 111, 109])] := by decide
 
+/-! ## K. nested creation: ids are drawn in creation-START order on both sides -/
+
+/-- a carrier, and how many further carriers its initialiser / fetcher creates synchronously -/
+inductive Carrier where
+  | plain
+  | nesting (inner : Nat)
+
+/-- the order in which creations START (an outer carrier draws its id before its initialiser runs) -/
+def startOrder : List Carrier → List IdOp
+  | [] => []
+  | .plain :: rest => .create :: startOrder rest
+  | .nesting n :: rest => .create :: (List.replicate n .create ++ startOrder rest)
+
+theorem allCreatesHyd_replicate (n : Nat) (l : List IdOp) (h : allCreatesHyd true l = true) :
+    allCreatesHyd true (List.replicate n .create ++ l) = true := by
+  induction n with
+  | zero => simpa using h
+  | succ n ih => simp [List.replicate_succ, allCreatesHyd, ih]
+
+theorem allCreatesHyd_startOrder (cs : List Carrier) : allCreatesHyd true (startOrder cs) = true := by
+  induction cs with
+  | nil => rfl
+  | cons c rest ih =>
+    cases c with
+    | plain => simp [startOrder, allCreatesHyd, ih]
+    | nesting n => simp [startOrder, allCreatesHyd, allCreatesHyd_replicate n _ ih]
+
+/-- **creation order = id order, on both sides**: for any page of carriers, some of which create
+further carriers from inside their initialiser / fetcher, the server and a client that runs the
+same initialisers hand out the same ids, in the order in which the creations start (the outer
+carrier's id precedes the ids of the carriers it creates) -/
+theorem C12_ids_in_creation_start_order (cs : List Carrier) :
+    srvHydIds SrvCtr.new (startOrder cs) = cliRun CliCtr.new (startOrder cs) :=
+  C12_ids_align_same_program_partial (startOrder cs) (allCreatesHyd_startOrder cs)
+
+/-- a plain carrier, then one whose initialiser creates another, then a plain one: 0; 1 (outer), 2 (inner); 3 -/
+example : srvHydIds SrvCtr.new (startOrder [.plain, .nesting 1, .plain]) = [0, 1, 2, 3] ∧
+    cliRun CliCtr.new (startOrder [.plain, .nesting 1, .plain]) = [0, 1, 2, 3] := by decide
+
 end Leptos.Transfer
